@@ -40,3 +40,38 @@ func refTerms(v *SVal) []string {
 	rec(v)
 	return out
 }
+
+// mapValuesAllocated: an allocated map holds no references to objects not yet allocated
+// (the counterpart, for map values, of the fact assumed for every loaded reference).
+func (fr *Frame) mapValuesAllocated(h *HeapState, m *SVal) {
+	x := fr.x
+	if m.Term == "" || hasBound(m.Term) {
+		return
+	}
+	mh := fr.mapInfo(m.T)
+	al := x.heapGet(h, allocName, "Int")
+	for _, l := range mh.valLeaves {
+		isRef := false
+		switch kindOf(l.T) {
+		case KPtr, KMap:
+			isRef = true
+		}
+		if len(l.Path) > 0 && l.Path[len(l.Path)-1] == "#arr" {
+			isRef = true
+		}
+		if !isRef {
+			continue
+		}
+		hv := x.heapGet(h, mh.valHeapName(l), mh.valSort(l))
+		key := "mva|" + hv + "|" + m.Term + "|" + al
+		if x.idxConst == nil {
+			x.idxConst = map[string]string{}
+		}
+		if _, done := x.idxConst[key]; done {
+			continue
+		}
+		x.idxConst[key] = "done"
+		row := "(select " + hv + " " + m.Term + ")"
+		x.em.Assert("(=> (<= " + m.Term + " " + al + ") (forall ((k!mva " + mh.kSort + ")) (! (<= (select " + row + " k!mva) " + al + ") :pattern ((select " + row + " k!mva)))))")
+	}
+}
